@@ -518,7 +518,7 @@ pub fn run(ctx: &Ctx) -> HResult<()> {
 	let ev = &ctx.ev;
 	ev.rule("delivery histories (blocks on a fork tree built by construction from the model UTXO of the chosen parent, single-defect negative blocks, reopen, compact, validate) generated by proptest; after every step get_unspent over every commitment ever created, the pmmr-index enumeration and validate_inputs/validate_tx probes are compared with a replay model; non-trivial = history with a reorg where some output's status differs between the two fork tips; distinct by (fork depth, spends, recreated, reopen, compaction, reorg count, negative kinds, base)");
 	ev.assume("the harness's replay model (spends remove, outputs insert, coinbase maturity) is the oracle; blocks are rooted with Chain::set_txhashset_roots on the chain under test");
-	let cases = ctx.n(288, 4800);
+	let cases = ctx.n(576, 4800);
 	if let Some((case, f)) = pbt_proc(ctx, "history", cases, 16) {
 		ctx.report("history", &f.sig, case, &f.msg);
 	}
